@@ -93,6 +93,10 @@ func init() {
 		// unique.Make / Handle.Value are generic: matched by prefix below.
 
 		"maps.clone":            inMapsClone,
+		// encoding/json is reflection-driven; the string-token path used by
+		// text marshalers is bridged to the real appendString / unquoteBytes
+		"encoding/json.Marshal":   inJSONMarshal,
+		"encoding/json.Unmarshal": inJSONUnmarshal,
 		// logging: empty bodies
 		"log/slog.Default":                    inSlogDefault,
 		"(*log/slog.Logger).With":             func(m *Machine, c *frame, fn *ssa.Function, a []value) value { return a[0] },
@@ -696,4 +700,114 @@ type nativeFunc struct {
 func inCtxWithCancel(m *Machine, c *frame, fn *ssa.Function, a []value) value {
 	cancel := &nativeFunc{name: "context cancel (stub)", f: func(m *Machine, caller *frame, args []value) value { return nil }}
 	return Tuple{a[0], cancel}
+}
+
+// ---- encoding/json bridge (string tokens only) ----
+
+// jsonHelper finds a non-exported function or generic instance of
+// encoding/json by scanning the callers named in via.
+func (m *Machine) jsonHelper(name string, via ...string) *ssa.Function {
+	pkg := m.P.SSAPkgs["encoding/json"]
+	if pkg == nil {
+		m.unsupported("encoding/json not loaded")
+	}
+	m.P.ensureBuilt(pkg)
+	if f := pkg.Func(name); f != nil && len(via) == 0 {
+		return f
+	}
+	for _, v := range via {
+		caller := pkg.Func(v)
+		if caller == nil {
+			continue
+		}
+		for _, b := range caller.Blocks {
+			for _, ins := range b.Instrs {
+				if c, ok := ins.(*ssa.Call); ok {
+					if callee := c.Call.StaticCallee(); callee != nil && strings.HasPrefix(callee.Name(), name+"[") {
+						return callee
+					}
+				}
+			}
+		}
+	}
+	m.unsupported("encoding/json.%s not found", name)
+	return nil
+}
+
+func (m *Machine) opaqueError(what string) Iface {
+	t := m.namedType("errors", "errorString")
+	p := m.alloc(t, "errorString")
+	*p.p = Struct{mkStr(what)}
+	return Iface{t: types.NewPointer(t), v: p}
+}
+
+// inJSONMarshal: json.Marshal(v) for a v that implements
+// encoding.TextMarshaler, or a string: the real appendString quotes the text
+// (escapeHTML = true, as json.Marshal does).
+func inJSONMarshal(m *Machine, c *frame, fn *ssa.Function, a []value) value {
+	v := a[0].(Iface)
+	if v.t == nil {
+		return Tuple{Slice{obj: m.newObj("json"), a: []value{m.tt.BV(8, 'n'), m.tt.BV(8, 'u'), m.tt.BV(8, 'l'), m.tt.BV(8, 'l')}}, Iface{}}
+	}
+	var text value
+	if isString(v.t) {
+		text = v.v
+	} else if mt := m.lookupMethodByName(v.t, "MarshalText"); mt != nil {
+		r := m.call(c, mt, []value{v.v}).(Tuple)
+		if e := r[1].(Iface); e.t != nil {
+			return Tuple{Slice{}, e}
+		}
+		text = r[0]
+	} else {
+		m.unsupported("json.Marshal of %s (only strings and encoding.TextMarshaler values are bridged)", v.t)
+	}
+	var app *ssa.Function
+	if _, isStr := text.(Str); isStr {
+		app = m.jsonHelper("appendString", "stringEncoder")
+	} else {
+		app = m.jsonHelper("appendString", "textMarshalerEncoder", "addrTextMarshalerEncoder")
+	}
+	out := m.callFunction(c, app, []value{Slice{}, text, m.tt.True}, nil)
+	return Tuple{out, Iface{}}
+}
+
+// inJSONUnmarshal: json.Unmarshal(data, v) for string tokens: into *string
+// through the real unquoteBytes, or into a json.Unmarshaler through its
+// UnmarshalJSON method (after the same validity check).
+func inJSONUnmarshal(m *Machine, c *frame, fn *ssa.Function, a []value) value {
+	data := a[0].(Slice)
+	v := a[1].(Iface)
+	if v.t == nil {
+		return m.opaqueError("json: Unmarshal(nil)")
+	}
+	pt, ok := v.t.Underlying().(*types.Pointer)
+	if !ok || v.v.(Ptr).isNil() {
+		return m.opaqueError("json: Unmarshal(non-pointer)")
+	}
+	if len(data.a) == 0 {
+		return m.opaqueError("unexpected end of JSON input")
+	}
+	first := data.a[0].(*Term)
+	if !m.branch(m.tt.Eq(first, m.tt.BV(8, '"')), "json.Unmarshal: string token") {
+		m.unsupported("json.Unmarshal of a non-string token (reflection-driven decoding is not bridged)")
+	}
+	unq := m.jsonHelper("unquoteBytes")
+	r := m.callFunction(c, unq, []value{data}, nil).(Tuple)
+	if !m.branch(r[1].(*Term), "json.Unmarshal: valid string token") {
+		return m.opaqueError("invalid character in string literal")
+	}
+	if um := m.lookupMethodByName(v.t, "UnmarshalJSON"); um != nil {
+		return m.call(c, um, []value{v.v, data})
+	}
+	if isString(pt.Elem()) {
+		t := r[0].(Slice)
+		b := make([]*Term, len(t.a))
+		for i, e := range t.a {
+			b[i] = e.(*Term)
+		}
+		m.store(v.v.(Ptr), strFromTerms(b))
+		return Iface{}
+	}
+	m.unsupported("json.Unmarshal into %s (only *string and json.Unmarshaler targets are bridged)", v.t)
+	return nil
 }
